@@ -101,8 +101,14 @@ func c07Run(c *fw.Ctx) {
 	if !c.Thorough() {
 		tss = []string{"now", "-301s", "+1h", "missing", "min-int64"}
 	}
-	now := harness.T0
-	future := harness.At(time.Hour)
+	// the authenticators are built at the epoch; every request arrives an hour later (whatever is computed once
+	// at start-up instead of per request is an hour stale by then)
+	for _, roots := range rootLists {
+		envs.get(strings.Join(roots, ","), harness.AuthOpts{EmailDomains: []string{"corp.test"}, RootDomains: roots})
+	}
+	now := harness.T0.Add(time.Hour)
+	vtime.SetManual(now)
+	future := harness.At(2 * time.Hour)
 
 	drive(c, "product", -1, func(x *explore.Exec, owned bool) {
 		roots := rootLists[x.Choose("root-domains", len(rootLists))]
@@ -301,6 +307,10 @@ func c07Run(c *fw.Ctx) {
 				// back to the authenticator's own sign_in, which judges the signature itself (endpoint sign_in/cookie)
 				outcome = "own-sign-in"
 				c.Res.Count("positive_callback_back_to_own_sign_in", 1)
+				// the browser is sent back to sign_in with the signature the PROXY made: the authenticator does not sign
+				if lq := loc.Query(); lq.Get("sig") != sig || lq.Get("ts") != ts {
+					viol("callback-re-signed-the-sign-in-link/sig="+sigKind+"/ts="+tsKind, fmt.Sprintf("the callback sent the browser to its sign_in with sig=%q ts=%q; the link carried in the state had sig=%q ts=%q", lq.Get("sig"), lq.Get("ts"), sig, ts))
+				}
 			default:
 				outcome = "redirect"
 				ok, h1, h2 := bothInDomain(resp.Location, base, roots)
@@ -369,7 +379,7 @@ func init() {
 		ID:    "C07",
 		Level: "exploration",
 		Rule: "full product on the unmodified NewAuthenticatorMux (Okta provider against a scripted IdP over TLS): URI grammar = scheme {https, http, HTTPS, javascript, none, //} x userinfo {none, in-domain-looking@ (thorough: x:y@)} x host {root, sub.root, other, root as prefix of another domain, look-alike suffix, root with its leading characters removed, the root's own parent domain, root with its dot replaced by another character, upper case, trailing dot, with port, IPv6, empty, %2f / backslash / TAB / # / ? inside} x tail {path, query naming another authority (thorough: fragment and path with @)}; " +
-			"root-domain lists {[sso.test], [.sso.test, other.test]}; signature {valid, valid for another URI, wrong secret, missing, not base64}; ts via the virtual clock {now, -301 s, +1 h, missing, the smallest int64 (thorough: -299 s, non-numeric, smallest int64 + 1, 0, -now, largest int64)}, each validly signed where a signature is valid; " +
+			"root-domain lists {[sso.test], [.sso.test, other.test]}; signature {valid, valid for another URI, wrong secret, missing, not base64}; authenticators built at the epoch, requests an hour later; ts via the virtual clock {now, -301 s, +1 h, missing, the smallest int64 (thorough: -299 s, non-numeric, smallest int64 + 1, 0, -now, largest int64)}, each validly signed where a signature is valid; " +
 			"endpoints: sign_in with/without authenticator cookie, sign_out GET/POST with/without cookie, start with the URI as nested proxy URI and as outer return URI, callback with the URI carried in state (also with error=access_denied; also with the state /start really records, the authenticator's own sign_in URL carrying the URI with its sig and ts), sign_out POST with the URI in the query and a correctly signed one in the body. " +
 			"Oracle: every 3xx Location other than the IdP's resolves inside the root domains under both an RFC 3986 and a browser-style reading; a code-carrying redirect, a sign-in/sign-out redirect and the start of an IdP login happen only if an independent HMAC-SHA256 recomputation accepts (uri, sig, ts) with ts <= 300 s old; " +
 			"distinct_nontrivial = distinct (endpoint, URI class, sig, ts, roots, outcome)",
